@@ -136,6 +136,15 @@ func c06compressed(c *mon.Ctx, b []byte, cls string, rng *rand.Rand) {
 			re := e.Bytes()
 			if !bytes.Equal(re[:], snap[:32]) {
 				c.Fail("reencode-differs/"+d.name, fmt.Sprintf("%s accepted %s but re-encodes to %s", d.name, hx(snap), hx(re[:])), nil)
+			} else if c06keepN++; c06keepN%5 == 0 {
+				// the caller keeps the decoded element: after many further decodings it must still encode to the same bytes
+				kept, orig, name := e, re, d.name
+				c06kept.Keep(c, name, func() string {
+					if kept.Bytes() != orig {
+						return "an element returned earlier by " + name + " no longer encodes to the bytes it was decoded from"
+					}
+					return ""
+				})
 			}
 			if di == 0 && (cls != "random" || rng.Intn(40) == 0) && rng.Intn(4) == 0 {
 				rp := ref.Mul(got, ref.R)
@@ -223,6 +232,11 @@ func c06offCurveX(rng *rand.Rand) *big.Int {
 }
 
 func runC06(c *mon.Ctx) {
+	runC06body(c)
+	c.Case("retained-results", func() { c06kept.Flush(c) })
+}
+
+func runC06body(c *mon.Ctx) {
 	if c.Mine(0) {
 		c.Case("y-adjacent-to-thresholds", func() {
 			rng := c.Rand("thresholds")
@@ -401,3 +415,8 @@ func c06nestedReads(c *mon.Ctx, rng *rand.Rand) {
 	}
 	c.Count("nested_reads", 1)
 }
+
+var (
+	c06kept  = Retainer{Cap: 80}
+	c06keepN int
+)
